@@ -1338,7 +1338,9 @@ class C35(Prop):
             return None
         # counterfactual attribution to the known defects of the unchanged tree: the failure must disappear under the candidate
         # fix of exactly that defect (anything that still fails is NOT attributed and is a violation)
-        for cls in (('streamagg-query-free-vars',), ('stale-binding-site',), ('streamagg-query-free-vars', 'stale-binding-site')):
+        # (the StreamAgg.free_vars defect this check found is fixed in /repo since d283d7328: nothing is attributed to it any more;
+        #  corpus/c35/01 stays as its regression case)
+        for cls in (('stale-binding-site',),):
             if self.holds_with_fixes(c, cls):
                 k = '+'.join(cls)
                 self.stats['known'][k] = self.stats['known'].get(k, 0) + 1
